@@ -26,6 +26,9 @@ class C09(Prop):
             "random histories may re-use an id that is still in flight (the class of the repaired finding K1); "
             "a quarter of the single-session histories with 3 or 4 children run on a NESTED handler (the first 2 or 3 children "
             "wrapped in a merge handler of their own) and are judged as the flat handler is; "
+            "in every tier 6 'late reader' histories: 20..40 EVENT/COUNT requests with ids of their own are submitted, then every child "
+            "answers all of them from a goroutine of its own while the client does not read for 100 ms (every request "
+            "must still get its merged reply, in the order of submission; one joint observation); "
             "joint observations: in half of the single-session random histories 60% of the adjacent messages of one child are emitted in "
             "one go, with no sentinel in between (the sentinel is itself a message that reaches the client), and observed "
             "jointly (MJoint, C09_joint_agreement_implies_oracle); in every tier 20 enumerated histories 'the same id "
